@@ -194,7 +194,7 @@ var c08Families = func() []c08Family {
 		{name: "cte-nested-nodes", format: "cte", timing: true, maxN: 1 << 13, build: func(n int, _ []byte) []byte {
 			return []byte("c0\n" + rep("(1 ", n) + rep(")", n))
 		}},
-		{name: "cte-nested-comments", format: "cte", timing: true, maxN: 1 << 15, build: func(n int, _ []byte) []byte {
+		{name: "cte-nested-comments", format: "cte", timing: true, maxN: 1 << 13, build: func(n int, _ []byte) []byte {
 			return []byte("c0\n" + rep("/*", n) + rep("*/", n) + "1")
 		}},
 		{name: "cte-many-comments", format: "cte", timing: true, maxN: 1 << 15, build: func(n int, _ []byte) []byte {
